@@ -1,0 +1,7 @@
+//go:build !verif
+
+package app
+
+func verifTrace(ev string, kv ...any) {}
+
+func verifGate(point string) {}
